@@ -167,6 +167,14 @@ func (f *function) diffEnv() (bool, string, diff.ValueDiff, error) {
 		return false, "", nil, fmt.Errorf("new environment is not a dict (%v)", newEnv.Type())
 	}
 
+	// A structural diff visits a value once for every path that leads to it. Values with
+	// heavy sharing (x = [x, x], repeated) are small to encode and astronomically large to
+	// walk: like cyclic data, they are reported as changed without a diff.
+	budget := 1 << 22
+	if !walkable(f.oldEnv, 1000, &budget) || !walkable(f.newEnv, 1000, &budget) {
+		return false, "environment changed", nil, nil
+	}
+
 	d, err := diff.DiffDepth(f.oldEnv, f.newEnv, 1000)
 	md, ok := d.(*diff.MappingDiff)
 	if err != nil || !ok {
@@ -193,6 +201,41 @@ func (f *function) diffEnv() (bool, string, diff.ValueDiff, error) {
 		reason = strings.Join(reasons[:len(reasons)-1], ", ") + ", and " + reasons[len(reasons)-1]
 	}
 	return false, reason + " changed", d, nil
+}
+
+// walkable reports whether v can be walked as a tree - every element once per path, as
+// comparing and diffing do - within the given depth and number of steps.
+func walkable(v starlark.Value, depth int, budget *int) bool {
+	if *budget--; *budget < 0 || depth < 0 {
+		return false
+	}
+	switch v := v.(type) {
+	case starlark.Tuple:
+		for _, e := range v {
+			if !walkable(e, depth-1, budget) {
+				return false
+			}
+		}
+	case *starlark.List:
+		for i, n := 0, v.Len(); i < n; i++ {
+			if !walkable(v.Index(i), depth-1, budget) {
+				return false
+			}
+		}
+	case *starlark.Dict:
+		for _, item := range v.Items() {
+			if !walkable(item[0], depth-1, budget) || !walkable(item[1], depth-1, budget) {
+				return false
+			}
+		}
+	case *starlark.Set:
+		for _, e := range v.Elems() {
+			if !walkable(e, depth-1, budget) {
+				return false
+			}
+		}
+	}
+	return true
 }
 
 func (f *function) upToDate() (bool, string, diff.ValueDiff, error) {
